@@ -797,6 +797,27 @@ def _upsert_routes(prog, fi, rep, rule):
                 if k is not None:
                     inner = ast.For(target=l.target, iter=l.iter, body=body[0].body, orelse=[])
                     routes.append({"kind": k, "sink": sink_of_loop(inner, l.target.id), "node": l})
+            elif len(body) == 1 and isinstance(body[0], ast.If) and body[0].orelse:
+                # one pass: `if e.id is not None: ups.append(e) else: ins.append(e)`, each list consumed afterwards
+                k = _id_partition(body[0].test, l.target.id)
+
+                def only_append(blk):
+                    blk = [x for x in blk if not (isinstance(x, ast.Expr) and isinstance(x.value, ast.Constant))]
+                    if len(blk) == 1 and isinstance(blk[0], ast.Expr) and isinstance(blk[0].value, ast.Call) and isinstance(blk[0].value.func, ast.Attribute) and blk[0].value.func.attr == "append" and isinstance(blk[0].value.func.value, ast.Name) and len(blk[0].value.args) == 1 and norm(blk[0].value.args[0]) == l.target.id:
+                        return blk[0].value.func.value.id
+                    return None
+
+                va, vb = only_append(body[0].body), only_append(body[0].orelse)
+                if k is not None and va and vb and va != vb:
+                    for var, kind in ((va, k), (vb, "none" if k == "has" else "has")):
+                        sink = "?"
+                        loops = [x for x in walk_own(fi.node) if isinstance(x, ast.For) and x is not l and isinstance(x.target, ast.Name) and norm(x.iter) == var]
+                        if len(loops) == 1 and not any(isinstance(x, ast.If) for x in loops[0].body):
+                            sink = sink_of_loop(loops[0], loops[0].target.id)
+                        comps = [x for x in walk_with_nested_exprs(fi.node) if isinstance(x, (ast.ListComp, ast.GeneratorExp)) and len(x.generators) == 1 and norm(x.generators[0].iter) == var and not x.generators[0].ifs]
+                        if sink == "?" and kind == "none" and (comps or loops):
+                            sink = "bulk"
+                        routes.append({"kind": kind, "sink": sink, "node": l})
     return routes
 
 
